@@ -10,7 +10,7 @@ namespace Deltio
 
 /-- A predicate on actor states that holds initially and that every non-deleting turn preserves. -/
 structure TurnStable (P : SubState → Prop) : Prop where
-  init : ∀ dl, P (SubState.init dl)
+  init : ∀ dl, 0 < dl → P (SubState.init dl)
   step : ∀ s t, P s → t ≠ .deleteBegin → t ≠ .deleteEnd → P (s.turn t).1
 
 def SubsAll (P : SubState → Prop) (sys : Sys) : Prop := ∀ e ∈ sys.subs, P e.st
@@ -165,7 +165,9 @@ theorem SubsAll_rpc {sys : Sys} (h : SubsAll P sys) (r : Req) : SubsAll P (sys.r
       simp only [List.mem_append, List.mem_singleton] at he
       rcases he with he | rfl
       · exact h e he
-      · exact hP.init _
+      · apply hP.init
+        have : 10 ≤ effAckDeadlineSecs ack := by unfold effAckDeadlineSecs; split <;> omega
+        omega
 
 theorem SubsAll_apply {sys : Sys} (h : SubsAll P sys) (op : SysOp) : SubsAll P (sys.apply op) := by
   cases op with
@@ -220,7 +222,7 @@ namespace Deltio
 /-! ### Instances -/
 
 theorem okStable : TurnStable (fun st => SubInv st ∧ st.deleted = false) :=
-  ⟨fun dl => ⟨SubInv_init dl, rfl⟩,
+  ⟨fun dl _ => ⟨SubInv_init dl, rfl⟩,
    fun _ t h ht _ => ⟨SubInv_turn h.1 t, by rw [turn_deleted t ht]; exact h.2⟩⟩
 
 def SubsOk (sys : Sys) : Prop := SubsAll (fun st => SubInv st ∧ st.deleted = false) sys
@@ -245,7 +247,7 @@ def IsTurnRun (st : SubState) : Prop := ∃ dl ts, NoDelete ts ∧ st = (SubStat
 
 theorem runStable : TurnStable IsTurnRun := by
   constructor
-  · intro dl; exact ⟨dl, [], (by intro t ht; cases ht), rfl⟩
+  · intro dl _; exact ⟨dl, [], (by intro t ht; cases ht), rfl⟩
   · intro s t ⟨dl, ts, hn, hs⟩ h1 h2
     refine ⟨dl, ts ++ [t], ?_, ?_⟩
     · intro x hx
